@@ -3233,10 +3233,16 @@ def where(condition: ArrayOrScalar,
     # generation targets need not follow numpy's promotion rules (loopy
     # evaluates 'If(c, float32, int32)' and all its consumers in float32).
     if dtype != _BOOL_DTYPE:
-        if isinstance(x, Array) and x.dtype != dtype:
-            expr2 = TypeCast(dtype, expr2)
-        if isinstance(y, Array) and y.dtype != dtype:
-            expr3 = TypeCast(dtype, expr3)
+        if isinstance(x, Array):
+            if x.dtype != dtype:
+                expr2 = TypeCast(dtype, expr2)
+        elif isinstance(expr2, SCALAR_CLASSES):
+            expr2 = dtype.type(expr2)
+        if isinstance(y, Array):
+            if y.dtype != dtype:
+                expr3 = TypeCast(dtype, expr3)
+        elif isinstance(expr3, SCALAR_CLASSES):
+            expr3 = dtype.type(expr3)
 
     return IndexLambda(
             expr=prim.If(expr1, expr2, expr3),
